@@ -226,18 +226,27 @@ def fresh(ty, hint='v'):
 
 
 # seq helpers -----------------------------------------------------------
+def _ctor_arg(t, i):
+    """accessor(constructor(args)) -> args[i] at construction time (keeps terms small)."""
+    if z3.is_app(t) and t.decl().kind() == z3.Z3_OP_DT_CONSTRUCTOR and t.num_args() > i:
+        return t.arg(i)
+    return None
+
+
 def seq_arr(v):
-    return _dt[v.ty].arr(v.t)
+    a = _ctor_arg(v.t, 0)
+    return a if a is not None else _dt[v.ty].arr(v.t)
 
 
 def seq_n(v):
     """Length; total semantics: a negative length field denotes the empty sequence
     (there is no axiom `n >= 0`: it would be false of the datatype)."""
-    raw = _dt[v.ty].n(v.t)
-    if z3.is_app(v.t) and v.t.decl().name() == 'mk':
-        raw = v.t.arg(1)
+    raw = _ctor_arg(v.t, 1)
+    if raw is not None:
         if z3.is_int_value(raw) and raw.as_long() >= 0:
             return raw
+    else:
+        raw = _dt[v.ty].n(v.t)
     return If(raw >= 0, raw, 0)
 
 
@@ -319,6 +328,9 @@ def set_card(s):
     return _card[s.ty](s.t)
 
 
+CARD_MONO = False
+
+
 def card_axioms():
     """Axioms of `card` on finite sets (DESIGN section 6)."""
     out = []
@@ -334,9 +346,15 @@ def card_axioms():
                           patterns=[f(Store(A, x, True))]))
         out.append(ForAll([A, x], f(Store(A, x, False)) == If(Select(A, x), f(A) - 1, f(A)),
                           patterns=[f(Store(A, x, False))]))
+        y2 = FreshConst(sort_of(et), 'cy2')
+        out.append(ForAll([A, x], Implies(Select(A, x), f(A) >= 1), patterns=[z3.MultiPattern(f(A), Select(A, x))]))
+        out.append(ForAll([A, x, y2], Implies(And(f(A) == 1, Select(A, x), Select(A, y2)), x == y2),
+                          patterns=[z3.MultiPattern(f(A), Select(A, x), Select(A, y2))]))
         # monotonicity: A subset of B => card A <= card B; proper => strict
         y = FreshConst(sort_of(et), 'cy')
         sub = ForAll([y], Implies(Select(A, y), Select(B, y)))
+        if not CARD_MONO:
+            continue
         out.append(ForAll([A, B], Implies(sub, f(A) <= f(B)), patterns=[z3.MultiPattern(f(A), f(B))]))
         out.append(ForAll([A, B], Implies(And(sub, f(A) == f(B)), A == B), patterns=[z3.MultiPattern(f(A), f(B))]))
     return out
@@ -344,11 +362,13 @@ def card_axioms():
 
 # dict helpers ----------------------------------------------------------
 def dict_dom(d):
-    return _dt[d.ty].dom(d.t)
+    a = _ctor_arg(d.t, 0)
+    return a if a is not None else _dt[d.ty].dom(d.t)
 
 
 def dict_val(d):
-    return _dt[d.ty].val(d.t)
+    a = _ctor_arg(d.t, 1)
+    return a if a is not None else _dt[d.ty].val(d.t)
 
 
 def mk_dict(kt, vt, dom, val):
@@ -395,7 +415,8 @@ def mk_pair(vals):
 
 
 def pair_get(v, i):
-    return V(v.ty[1 + i], getattr(_dt[v.ty], 'f%d' % i)(v.t))
+    a = _ctor_arg(v.t, i)
+    return V(v.ty[1 + i], a if a is not None else getattr(_dt[v.ty], 'f%d' % i)(v.t))
 
 
 def opt_none(et):
@@ -421,21 +442,23 @@ def opt_val(v):
 # block helpers -----------------------------------------------------------
 def block_field(b, name):
     srt = sort_of(T_BLOCK)
-    for n, t in BLOCK_FIELDS:
+    for i, (n, t) in enumerate(BLOCK_FIELDS):
         if n == name:
-            return V(t, getattr(srt, 'f_' + n)(b.t))
+            a = _ctor_arg(b.t, i)
+            return V(t, a if a is not None else getattr(srt, 'f_' + n)(b.t))
     raise KeyError(name)
 
 
 def block_replace(b, **kw):
     srt = sort_of(T_BLOCK)
     args = []
-    for n, t in BLOCK_FIELDS:
+    for i, (n, t) in enumerate(BLOCK_FIELDS):
         if n in kw:
             assert kw[n].ty == t, (n, kw[n].ty, t)
             args.append(kw[n].t)
         else:
-            args.append(getattr(srt, 'f_' + n)(b.t))
+            a = _ctor_arg(b.t, i)
+            args.append(a if a is not None else getattr(srt, 'f_' + n)(b.t))
     return V(T_BLOCK, srt.mk(*args))
 
 
